@@ -80,3 +80,21 @@ def run(chk):
     from .c05 import import_lookup_contracts
     chk.guard("R5", lambda: import_lookup_contracts(chk, "R5", ["lit", "pat"], with_chain=False))
 
+    def r7():
+        # the body of the literal conversion is the one written on ITS instruction: the trait-level repeat protocol must not merge a
+        # repeated quick return / default case into an instruction that closes the block (imported from C14.R1)
+        from ..core import Check
+        from . import c14
+        sub = Check("C14", chk.repo, chk.tier)
+        sub.guard("R1", lambda: c14.r1(sub))
+        chk.rule("R7", "trait-level repeat protocol (what is merged into which instruction)", floor=6)
+        for r_, why in sub.inconclusive:
+            if "get_data_type_attrs" in why:
+                chk.inconc("R7", why)
+        for i in sub.instances:
+            if i.rule == "R1" and i.key.startswith("get_data_type_attrs/Map["):
+                if i.ok:
+                    chk.ok("R7", "repeat:" + i.key, i.file, i.line)
+                else:
+                    chk.bad("R7", "repeat:" + i.key, i.file, i.line, i.what, i.expected, i.found)
+    chk.guard("R7", r7)
